@@ -126,5 +126,13 @@ CLAIMS = {
         "note": TRUST + "wall-clock behaviour is not decided; histories need no enumeration because each clause is a per-call invariant",
         "technique": "must-pass-through typestate + who-may-call + value-flow/affine-mod reasoning (static analysis)",
     },
+    "C17": {
+        "text": "Each reported identity field is traced through value-flow terms to the byte range / byte order it is read from (id LE at 20, "
+                "body [40:-16], port [4:6] LE, sn [8:40], name [41:41+n], type from the name) and compared with the reply format; ip comes "
+                "from the datagram source and version from the detected version; Device stores and returns every field unchanged; version "
+                "and class dispatch tables; DISCOVERY_MSG folds to a self-consistent signed 72-byte packet sent to 6445/20086.",
+        "note": TRUST + "the reply format table (matches the two captured replies pinned by the tests)",
+        "technique": "value-flow range/provenance analysis + constant folding (static analysis)",
+    },
 }
 NOT_APPLICABLE = {}
